@@ -30,6 +30,7 @@ def levels(tier):
              "alphabet": ["we", "addprefix", "moveprefix", "delwe"], "defaults": ["never"]},
             {"name": "long-n2", "n": 2, "prelude": [["we", [[0, 3]]]], "alphabet": ["page", "links"], "links_batch": 1, "defaults": ["never"],
              "pools": LONGPOOLS},
+            {"name": "pages-n2", "n": 2, "alphabet": ["pages", "we", "page"], "pages_batch": 1, "defaults": ["never"], "pool": POOL[:3]},
             {"name": "batch2", "n": 1, "prelude": [["we", [[0, 3]]]], "alphabet": ["batch"], "batch_sources": 2, "batch_targets": 1,
              "defaults": ["never"], "pool": POOL[:3], "yield_frequencies": [50, 1]},
         ]
